@@ -169,4 +169,62 @@ theorem C06_error_empty (sf : SF K) (fn : Option (Option Functional)) (lv : Opti
   rw [this]
   rfl
 
+/-! ## 3. Signs: the generic statement and the squared error -/
+
+/-- **Signs, generic form** (abstract in the score).  Let `(f, lv')` be the effective functional and
+level of a successful call, `S` the per-pair value of the score on a set `dom` of admissible
+predictions that contains every value not below all observations (`hup`: in particular `min y`),
+and suppose the isotonic fit for `(f, lv')` minimises `S` among non-decreasing `dom`-valued
+sequences (`dec_FitOpt`; instances: `dec_fitOpt_sq`, `dec_fitOpt_asymSq`, `dec_fitOpt_pinball`,
+and `dec_fitOpt_of_gpava` for any `OSScore`).  If the marginal and all forecasts are admissible and
+no domain repair takes place, every row has `mcb ≥ 0` and `dsc ≥ 0`. -/
+theorem C06_mcb_dsc_nonneg_abstract (sf : SF K) (fn : Option (Option Functional)) (lv : Option K)
+    (ys : List K) (cols : List (List K)) (w : Option (List K)) (rows : List (DecompRow K))
+    (h : decompose sf fn lv ys cols w = .ok rows)
+    (f : Functional) (lv' : K) (hv : dec_validate sf fn lv = .ok (f, lv'))
+    (S : K → K → K) (dom : K → Prop)
+    (hS : ∀ y ∈ ys, ∀ z, dom z → sfPair sf y z = .ok (S y z))
+    (hopt : dec_FitOpt f lv' S dom ys) (hup : ∀ v, (∃ a ∈ ys, a ≤ v) → dom v)
+    (hallowed : dec_yminAllowed sf ys w = true)
+    (hmarg : ∀ m, functionalVal f lv' ys w = .ok m → dom m)
+    (hcols : ∀ x ∈ cols, ∀ z ∈ x, dom z) :
+    ∀ r ∈ rows, 0 ≤ r.mcb ∧ 0 ≤ r.dsc := by
+  obtain ⟨f', lv'', marg, sm, hv', _, hm, hrows⟩ := (dec_ok_iff sf fn lv ys cols w rows).mp h
+  rw [hv] at hv'
+  cases hv'
+  obtain ⟨hm1, hm2⟩ := dec_marginal_ok hm
+  intro r hr
+  obtain ⟨x, hx, hrow⟩ := dec_mapM_mem hrows hr
+  exact dec_row_signs sf f lv' S dom ys w hS hopt hup hallowed marg sm hm2 (hmarg marg hm1) x
+    (hcols x hx) r hrow
+
+/-- **Squared error: `mcb ≥ 0` and `dsc ≥ 0`**, over any ordered field, for every data set, every
+(necessarily positive, or absent) weights and every forecast matrix — with `functional` inferred or
+given as `"mean"`, any `level`.  `min y` is always admissible for the squared error, so there is no
+proviso. -/
+theorem C06_nonneg_squared_error (sf : SF K) (hk : sf.kind = .squaredError) (he : sf.elem = none)
+    (fn : Option (Option Functional)) (hfn : fn = none ∨ fn = some (some .mean)) (lv : Option K)
+    (ys : List K) (cols : List (List K)) (w : Option (List K)) (rows : List (DecompRow K))
+    (h : decompose sf fn lv ys cols w = .ok rows) : ∀ r ∈ rows, 0 ≤ r.mcb ∧ 0 ≤ r.dsc := by
+  obtain ⟨l, hv⟩ := dec_validate_sq sf hk he fn hfn lv
+  exact C06_mcb_dsc_nonneg_abstract sf fn lv ys cols w rows h .mean l hv
+    (fun y z => (z - y) * (z - y)) (fun _ => True)
+    (fun y _ z _ => dec_sfPair_sq sf hk he y z) (dec_fitOpt_sq l ys) (fun _ _ => trivial)
+    (dec_yminAllowed_of_ok sf ys w _ (dec_sfPair_sq sf hk he _ _)) (fun _ _ => trivial)
+    (fun _ _ _ _ => trivial)
+
+theorem C06_mcb_nonneg_squared_error (sf : SF K) (hk : sf.kind = .squaredError)
+    (he : sf.elem = none) (fn : Option (Option Functional))
+    (hfn : fn = none ∨ fn = some (some .mean)) (lv : Option K) (ys : List K)
+    (cols : List (List K)) (w : Option (List K)) (rows : List (DecompRow K))
+    (h : decompose sf fn lv ys cols w = .ok rows) : ∀ r ∈ rows, 0 ≤ r.mcb :=
+  fun r hr => (C06_nonneg_squared_error sf hk he fn hfn lv ys cols w rows h r hr).1
+
+theorem C06_dsc_nonneg_squared_error (sf : SF K) (hk : sf.kind = .squaredError)
+    (he : sf.elem = none) (fn : Option (Option Functional))
+    (hfn : fn = none ∨ fn = some (some .mean)) (lv : Option K) (ys : List K)
+    (cols : List (List K)) (w : Option (List K)) (rows : List (DecompRow K))
+    (h : decompose sf fn lv ys cols w = .ok rows) : ∀ r ∈ rows, 0 ≤ r.dsc :=
+  fun r hr => (C06_nonneg_squared_error sf hk he fn hfn lv ys cols w rows h r hr).2
+
 end MD.Props
